@@ -88,7 +88,7 @@ def x_cell_lookup(x: int, y: int, z: int) -> bool:
 
 
 BOUNDS = {"id formula (K)": "all shapes w,h,d >= 0 (non-linear, no bound), all in-grid coordinates",
-          "table inverse (K)": "every concrete shape with extents 0..N (N = 4 quick / 6 thorough) through the real constructor and pandas table",
+          "table inverse (K)": "every concrete shape with extents 0..N (N = 4 quick / 8 thorough) through the real constructor and pandas table",
           "get_cell (K)": "all shapes, all integer coordinates, list-backed cells", "X fallback": "extents 0..2/3"}
 OUTSIDE = ["that pandas' iloc[i] returns the i-th row (trusted; positional access is stubbed by a list-backed stand-in)",
            "non-integer coordinates"]
@@ -98,7 +98,7 @@ ASSUMPTIONS = ["the world's table enumerates z-major, then y, then x over max(ex
 
 
 def obligations(tier):
-    N = 4 if tier == "quick" else 6
+    N = 4 if tier == "quick" else 8
     M = 2 if tier == "quick" else 3
     enc = (Env.discrete_grid_pos_to_id, Env.DiscreteWorld.get_cell, Env.DiscreteWorld.__init__)
     shapes = [list(s) for s in itertools.product(range(M + 1), repeat=3)]
